@@ -6,6 +6,8 @@ import c02
 
 CONFIGS = ['prod']
 EXPLANATION = (
+    'SEM: the acknowledgement counting interpreted for two selected nodes and all 16 combinations of replica outcomes (one request per node, Ok exactly whe'
+    'n all acknowledged). '
     'Decided clauses: W1 in each of the four client API functions the replica distribution (whose result is the function\'s result) is '
     'dominated by the success edge of the local keyspace write; W2 the replica set handed to the distribution is the selector\'s answer '
     'for the caller\'s own consistency argument (not a constant level); W3 the distribution returns Ok only on the edge '
